@@ -2,11 +2,22 @@
 
 The oracle works on the plain rows of the chart spec: every `offset` / `length` divided by r, every `bpm` multiplied by r,
 everything else equal.  The written file is read back with the library's reader and compared with the ORACLE's rated
-timeline (not with the library's rated chart)."""
+timeline (not with the library's rated chart).
+
+Dimensions 10-12 (clauses as before, evaluated on the chart AS IT IS when rate() / write() is called):
+  change   after rate() the SAME original is changed through public operations (offset / bpm / column through the list
+           properties or the stack, a row appended, new lists assigned, file-level time fields set) and rated again; the
+           result is changed the same way and rated again (state carried over by the copy);
+  history  write -> rate -> write -> rate -> write on the objects of one case (`chain`), the written original moved in place
+           before it is rated (`shift`), the rated chart written twice (`twice`);
+  files    write_file / read_file of the original and of the rated chart on ONE path, which before held nothing / a longer /
+           a shorter file;
+  values   rates 1e-6 and 1e6, bpm 0 / negative, columns up to 255, metronomes 1 / 7 / 0.5, volumes 0 / 100."""
 from __future__ import annotations
 
 import copy
 import dataclasses
+import json
 import math
 import os
 import random
@@ -219,6 +230,54 @@ def _edit_everything(o):
             o.maps.append(copy.deepcopy(o.maps[0]))
 
 
+CHANGES = ("props", "stack", "append", "new_lists")
+
+
+def _legit_change(o, how):
+    """change, in place and through public operations only, what a chart / every chart of a mapset holds: `props` offset, bpm and
+    column through the list properties; `stack` offset and bpm through stack(); `append` the first row of every list appended again
+    (a new list is assigned); `new_lists` every list replaced by a new list object holding moved rows.  The file-level time fields the
+    statement names are set to new values.  Returns False when the change itself could not be made (not rate()'s matter)."""
+    try:
+        for m in (list(o.maps) if hasattr(o, "maps") else [o]):
+            lists = chart_lists(m)  # the lists the chart HAS
+            if how == "stack" and any(len(l.df) for l in m.objs.values()):
+                st = m.stack()
+                st.offset += 7
+                if any("bpm" in l.df.columns and len(l.df) for l in m.objs.values()):
+                    st.bpm *= 2
+                lists = {k: v for k, v in lists.items() if k not in m.objs}
+                how_rest = "props"
+            else:
+                how_rest = "props" if how == "stack" else how
+            for name, lst in lists.items():
+                if not len(lst.df):
+                    continue
+                if how_rest == "props":
+                    lst.offset += 7
+                    if "bpm" in lst.df.columns:
+                        lst.bpm *= 2
+                    if "column" in lst.df.columns:
+                        lst.column += 1
+                    if "length" in lst.df.columns:
+                        lst.length *= 2
+                elif how_rest == "append":
+                    setattr(m, name, lst.append(lst.df.iloc[[0]]))
+                else:
+                    df = lst.df.copy()
+                    df["offset"] = df["offset"] + 11
+                    setattr(m, name, type(lst)(df))
+            for k in SCALED_FIELDS.get(type(m).__name__, {}):
+                if _num(getattr(m, k, None)) and getattr(m, k) != -1:
+                    setattr(m, k, getattr(m, k) + 250)
+        for k in SCALED_FIELDS.get(type(o).__name__, {}) if hasattr(o, "maps") else ():
+            if _num(getattr(o, k, None)):
+                setattr(o, k, getattr(o, k) + 250)
+        return True
+    except Exception:
+        return False
+
+
 def _run_rate_case(case):
     """case: dict(spec=chart or mapset spec, rate=r[, rate2=b][, rate_type=, call=, independence=])"""
     obj = _build(case["spec"])
@@ -258,6 +317,29 @@ def _run_rate_case(case):
         d = diff(s1, _snap(_call_rate(obj, arg, call)))
         if d:
             out.append(("same_result_when_rated_again", "; ".join(d[:3])))
+    if case.get("change"):
+        # call - legitimate change of the SAME object - call again: the second result is what the statement says for the chart as it is now
+        how = case["change"]
+        try:
+            for who, target in (("original", obj), ("result", res)):
+                before = _snap(target)
+                if not _legit_change(target, how) or not diff(before, _snap(target)):
+                    continue
+                sb = _snap(target)
+                if who == "original" and diff(s1, _snap(res)):
+                    out.append(("result_independent_of_the_original", f"the original was changed ({how}) after rate(); the rated result changed: " + "; ".join(diff(s1, _snap(res))[:3])))
+                again = _call_rate(target, arg, call)
+                out.extend((w, f"the {who} changed ({how}) after rate() and rated again: {d}") for w, d in _cmp_rated(sb, _snap(again), r))
+                d = diff(sb, _snap(target))
+                if d:
+                    out.append(("original_untouched", f"the {who} changed ({how}) after rate() and rated again: " + "; ".join(d[:3])))
+        except Exception as ex:
+            out.append(("rate_raises", f"rate({arg!r}) [{call}] of the chart changed ({how}) after an earlier rate(): {type(ex).__name__}: {ex}"))
+        if case.get("independence"):
+            # the objects of the following clauses are rebuilt: they are about the chart of the spec
+            obj = _build(case["spec"])
+            res = _call_rate(obj, arg, call)
+            s1 = _snap(res)
     if case.get("independence"):
         # "a new chart ... the original is untouched": the two share nothing, whichever of them is edited afterwards
         try:
@@ -353,6 +435,12 @@ def _rate_specs(game):
     # --- integer-typed columns (charts written in code with whole numbers)
     out.append(("int_typed", _intify(std_spec(game, hits=[(0, 0), (1001, 1), (333, 2)], holds=[(2000, 3, 501), (7, 0, 1)], bpms=[(0, 123), (1001, 175)], **({"svs": [(100, 2)]} if sv else {}),
                                               **({"samples": [(301, "a.wav", 40)]} if osx else {}), **({"stops": [(1501, 251)]} if game == "sm" else {})))))
+    # --- the whole range of the numeric columns: tempo 0 / negative / tiny / huge, metronomes 1 / 7 / 0.5, columns 0..255, lengths 0 / huge,
+    #     SV multipliers 0 / negative / huge, volumes 0 / 100
+    vr = std_spec(game, hits=[(0, 0), (1, 9), (2, 17), (3, 255)], holds=[(10, 0, 0), (20, 255, 1e9), (-1e9, 9, 2e9)], bpms=[(0, 0.0, 1), (100, -120, 7), (200, 1e-6, 0.5), (300, 1e9, 16)],
+                  **({"svs": [(0, 0.0), (1, -1e6), (2, 1e6), (3, 1e-9)]} if sv else {}), **({"samples": [(0, "a.wav", 0), (1, "b.wav", 100)]} if osx else {}),
+                  **({"stops": [(0, 0), (1, 1e9), (2, -5)]} if game == "sm" else {}))
+    out.append(("value_range", vr))
     # --- text fields that must come through unchanged
     out.append(("text_meta", dict(std_spec(game, hits=[(0, 0), (250, 1)], holds=[(500, 2, 125)], bpms=[(0, 120)], **sv), meta=_TEXT_META[game])))
     return out
@@ -381,6 +469,7 @@ def _rate_objects(game):
 
 
 RATES_MORE = [1.0, 3, 1 / 3, 0.1, 10, 0.9, 4 / 3, 0.001, 1000.0, 0.999999, 7, 1.0000001]
+RATES_EXTREME = [1e-6, 1e6, 5e-324 ** 0.25, 12345.678]  # r > 0: far from 1 (5e-324 ** 0.25 is about 4.7e-81)
 
 
 def _rate_plan(rng, quick):
@@ -401,6 +490,14 @@ def _rate_plan(rng, quick):
                 case["rate_type"] = rng.choice(["py", "py", "py", "np_float64", "np_int64" if integral else "np_float64"])
                 case["call"] = rng.choice(["pos", "pos", "kw", "class"])
                 case["independence"] = k == 0 or rng.random() < 0.25
+                # dimensions 11 / 12, drawn from a generator of their own (seeded by the case drawn so far) so that the cases above stay what they were
+                sub = random.Random(json.dumps([label, k, case["rate"], case["rate2"]], default=str))
+                nth = len(plan) // len(rates)  # every object: changed between two calls of rate() in round 0 or in round 1
+                if (k < 2 and nth % 2 == k) or (k >= 2 and sub.random() < 0.3):
+                    case["change"] = CHANGES[(nth // 2) % len(CHANGES)] if k < 2 else sub.choice(CHANGES)
+                if k >= 2 and sub.random() < 0.08:
+                    case["rate"] = sub.choice(RATES_EXTREME)
+                    case["rate_type"] = "py"
                 plan.append((k, rng.random(), label, case))
     plan.sort(key=lambda x: (x[0], x[1]))
     return [(k, label, case) for k, _, label, case in plan]
@@ -427,8 +524,11 @@ def rate_in_memory(rep):
                  f".sm stops without holds; 8-12 mapsets incl. an empty one, an empty chart and a chart lacking one kind in the MIDDLE, osu charts with samples inside a generic MapSet, .sm file offsets 1000 / -250 / int-typed) "
                  f"= {nobj} objects x rates {RATES} + {RATES_MORE} + random in [0.3, 3] ({len(plan)} planned, run round by round: every object first with one rate != 1, then with rate 1, then the rest; {n} run, rounds {sorted(rounds)[:1]}..{sorted(rounds)[-1:]}); "
                  f"the rate passed as python number / numpy float64 / numpy int64, positionally / by keyword / through the class; each with a second rate for the composition clause and a repeated rate() of the same original; "
-                 f"for the first round and a quarter of the rest, original and result are edited afterwards (independence)")
-    rep.rule = "a case is (chart or mapset, rate, second rate, how the rate is passed); non-trivial when rate != 1"
+                 f"for the first round and a quarter of the rest, original and result are edited afterwards (independence); for every object in one of the first two rounds and for 30% of the later cases the ORIGINAL is changed in place after rate() "
+                 f"({list(CHANGES)}: offset / bpm / column / length through the list properties, offset / bpm through stack(), a row appended, new list objects assigned; preview point / file offset / sample window set) and rated AGAIN, "
+                 f"then the RESULT is changed the same way and rated again; 8% of the later rounds with a rate from {RATES_EXTREME}; one chart per game with tempo 0 / negative / 1e-6 / 1e9, metronomes 1 / 7 / 0.5 / 16, columns 0..255, "
+                 f"lengths 0 / 2e9, SV multipliers 0 / +-1e6 / 1e-9, volumes 0 / 100")
+    rep.rule = "a case is (chart or mapset, rate, second rate, how the rate is passed, what is changed between two calls of rate()); non-trivial when rate != 1"
     rep.extra["fields_not_asserted"] = {k: sorted(v) for k, v in UNASSERTED.items()}
     rep.extra["cases_per_game"] = games
 
@@ -562,13 +662,29 @@ def _reorder(rows, order, seed):
     return out
 
 
-def _write_read(game, obj, via="mem"):
-    """write -> read through the in-memory entry points, or through write_file / read_file (path as str or as Path)"""
+def _as_bytes(data):
+    if isinstance(data, (list, tuple)):  # a text given as its lines
+        data = "\n".join(data)
+    return data if isinstance(data, bytes) else data.encode("utf8")
+
+
+def _write_read(game, obj, via="mem", td=None, before=None):
+    """write -> read through the in-memory entry points, or through write_file / read_file (path as str or as Path).  `td`: the
+    directory to use (the same path is then used by every call of one case); `before`: what the path holds when write_file is called -
+    None: whatever an earlier call left there (nothing, the first time), 'longer' / 'shorter': a longer / shorter file."""
     from pathlib import Path
 
     if via != "mem":
-        with tempfile.TemporaryDirectory(prefix="c13_") as td:
+        own = None
+        if td is None:
+            own = tempfile.TemporaryDirectory(prefix="c13_")
+            td = own.name
+        try:
             p = os.path.join(td, "rated é." + game)
+            if before:
+                data = _as_bytes(obj.write())
+                with open(p, "wb") as f:
+                    f.write(data + b"\n" + data + b"\n" + data[: len(data) // 2] if before == "longer" else data[: len(data) // 3])
             p = Path(p) if via == "file_path" else p
             obj.write_file(p)
             if game == "osu":
@@ -587,6 +703,9 @@ def _write_read(game, obj, via="mem"):
             from reamber.bms.BMSMap import BMSMap
 
             return BMSMap.read_file(p), None
+        finally:
+            if own:
+                own.cleanup()
     if game == "osu":
         from reamber.osu.OsuMap import OsuMap
 
@@ -639,10 +758,33 @@ def _cmp_timeline(game, rows, r, back, back_set, file0, clause):
     return out
 
 
+def _shift_in_place(game, obj, d, how):
+    """every time of the chart moved by d ms through public operations, together with the .sm file offset"""
+    m = obj.maps[0] if game == "sm" else obj
+    lists = chart_lists(m)
+    if how == "stack" and any(len(l.df) for l in m.objs.values()):
+        st = m.stack()
+        st.offset += d
+        lists = {k: v for k, v in lists.items() if k not in m.objs}
+    for lst in lists.values():
+        if len(lst.df):
+            lst.offset += d
+    if game == "sm":
+        obj.offset = obj.offset + d
+
+
 def _run_write_case(case):
-    """case: dict(game=, rows=plain rows on the grid, rate=r[, meta=..., order=, order_seed=, via=, through_set=, rate_type=, call=]).
+    """case: dict(game=, rows=plain rows on the grid, rate=r[, meta=..., order=, order_seed=, via=, through_set=, rate_type=, call=,
+    same_path=, file_before=, shift=, shift_how=, twice=, chain=]).
     Returns [(what, detail)]; what == 'skipped_format_round_trip' (never reported as a failure) when the UNRATED chart does not
     survive write -> read either: that is a matter of the writer / reader properties (C01-C06), not of rate()."""
+    if case.get("same_path") and case.get("via", "mem") != "mem":
+        with tempfile.TemporaryDirectory(prefix="c13_") as td:
+            return _run_write_case_in(case, td)
+    return _run_write_case_in(case, None)
+
+
+def _run_write_case_in(case, td):
     game, r, rows = case["game"], case["rate"], case["rows"]
     arg, call, via = _rate_arg(r, case.get("rate_type", "py")), case.get("call", "pos"), case.get("via", "mem")
     spec = _rows_to_spec(game, _reorder(rows, case.get("order"), case.get("order_seed", 0)))
@@ -655,12 +797,24 @@ def _run_write_case(case):
         obj = build(dict(spec, meta=meta)) if meta else build(spec)
         file0 = float(obj.preview_time) if game == "osu" else None
     try:
-        b0, bs0 = _write_read(game, obj, via)
+        b0, bs0 = _write_read(game, obj, via, td, case.get("file_before"))
         base = _cmp_timeline(game, rows, 1, b0, bs0, file0, clause)
     except Exception as ex:
         base = [(clause, f"{type(ex).__name__}: {ex}")]
     if base:
         return [("skipped_format_round_trip", f"unrated chart does not survive write -> read: {base[0][1]}")]
+    note = ""
+    if case.get("shift") and game != "bms":
+        # the chart that has been written is moved in place, then rated: the rated timeline is the one of the chart as it is now
+        d = case["shift"]
+        try:
+            _shift_in_place(game, obj, d, case.get("shift_how", "props"))
+        except Exception as ex:
+            return [("skipped_format_round_trip", f"moving the chart in place raised {type(ex).__name__}: {ex}")]
+        rows = dict(rows, **{k: [[v[0] + d] + list(v[1:]) for v in vs] for k, vs in rows.items()})
+        if game == "sm":
+            file0 = (file0[0] + d, file0[1], file0[2])
+        note = f" [the chart was written, then moved by {d} ms in place ({case.get('shift_how', 'props')}), then rated]"
     try:
         if case.get("through_set") and game != "sm":
             from reamber.base.MapSet import MapSet
@@ -668,13 +822,33 @@ def _run_write_case(case):
             rated = _call_rate(MapSet([obj]), arg, call).maps[0]  # the chart rated as a member of a generic mapset
         else:
             rated = _call_rate(obj, arg, call)
-        back, back_set = _write_read(game, rated, via)
+        back, back_set = _write_read(game, rated, via, td, case.get("file_before") if td is None else None)
     except Exception as ex:
-        return [(clause, f"rate({r}) -> write -> read raised {type(ex).__name__}: {ex}")]
-    return _cmp_timeline(game, rows, r, back, back_set, file0, clause)[:1]
+        return [(clause, f"rate({r}) -> write -> read raised {type(ex).__name__}: {ex}{note}")]
+    out = [(w, d + note) for w, d in _cmp_timeline(game, rows, r, back, back_set, file0, clause)[:1]]
+    if out:
+        return out
+    try:
+        if case.get("twice"):
+            # the same rated chart written a second time: that text, too, reads back as the rated timeline
+            w1, w2 = rated.write(), rated.write()
+            if w1 != w2:
+                back, back_set = _write_read(game, rated, "mem")
+                out = [(w, d + " [second write() of the rated chart]") for w, d in _cmp_timeline(game, rows, r, back, back_set, file0, clause)[:1]]
+        if case.get("chain") and not out:
+            # write -> rate -> write -> rate -> write: the chart rated again after it has been written
+            b = case["chain"]
+            again = _call_rate(rated, b, call)
+            back, back_set = _write_read(game, again, via, td)
+            # rate a then b equals rate a*b; the grid tolerance of .sm / .bms is the one at that rate
+            out = [(w, d + f" [rate({r}) written, then .rate({b}) of it written]") for w, d in _cmp_timeline(game, rows, r * b, back, back_set, file0, clause)[:1]]
+    except Exception as ex:
+        return [(clause, f"rate({r}) -> write -> (write | rate({case.get('chain')}) -> write) -> read raised {type(ex).__name__}: {ex}")]
+    return out
 
 
 WRITE_RATES_MORE = [0.9, 4 / 3, 1.25, 0.8]
+WRITE_RATES_WIDE = [0.05, 0.1, 1 / 3, 3, 10, 20]
 
 
 def _mk_write_check(game):
@@ -706,6 +880,21 @@ def _mk_write_check(game):
                         case["meta"] = dict(preview_time=rng.choice([0, 86398, 12345.6, 250, 999999]))
                     if game == "sm" and rng.random() < 0.5:
                         case["meta"] = dict(sample_start=rng.choice([0.0, 12345.6, 30000, 1.5]), sample_length=rng.choice([10000.0, 12345.6, 15000, 0.5]))
+                    # dimensions 10 / 11, drawn from a generator of their own (seeded by the case drawn so far): the cases above stay what they were
+                    sub = random.Random(json.dumps(case, sort_keys=True, default=str))
+                    if case["via"] != "mem":
+                        case["same_path"] = sub.random() < 0.7
+                        case["file_before"] = sub.choice([None, "longer", "shorter"])
+                    if sub.random() < 0.1:
+                        case["rate"], case["rate_type"] = sub.choice(WRITE_RATES_WIDE), "py"
+                    x = sub.random()
+                    if x < 0.2 and game != "bms":
+                        case["shift"] = sub.choice([250, -1000, 125, 60000])
+                        case["shift_how"] = sub.choice(["props", "stack"])
+                    elif x < 0.4:
+                        case["chain"] = sub.choice([0.5, 2, 1.25, 0.8])
+                    elif x < 0.55:
+                        case["twice"] = True
                     plan.append((kind, case))
         for kind, case in plan:
             if rep.out_of_time(40, 300):
@@ -715,6 +904,10 @@ def _mk_write_check(game):
             for k in ("order", "via"):
                 seen[k][case[k]] = seen[k].get(case[k], 0) + 1
             seen["through_set"] += bool(case["through_set"])
+            for k in ("same_path", "file_before", "shift", "chain", "twice"):
+                if case.get(k):
+                    seen.setdefault(k, 0)
+                    seen[k] += 1
             seen["kinds"][kind] = seen["kinds"].get(kind, 0) + 1
             for what, d in _run_write_case(case):
                 if what == "skipped_format_round_trip":
@@ -725,7 +918,10 @@ def _mk_write_check(game):
                      f"(1-3 tempo sections on measure lines, 4 columns, objects on 1/2, 1/3 or 1/4 beats"
                      f"{', file offset in {0, 1000, -250, 37.5, 500}, sample window varied incl. sub-ms values' if game == 'sm' else ''}{', preview point varied incl. 0 and a sub-ms value' if game == 'osu' else ''}) + a one-note chart; "
                      f"rates {RATES} + one of {WRITE_RATES_MORE} + {rep.n(1, 6)} random; rows of every list in time order / reversed / shuffled; written and read in memory or through write_file / read_file (str / Path); "
-                     f"{'the chart rated on its own or as a member of a generic MapSet; ' if game != 'sm' else ''}rate as python / numpy number, positional / keyword / through the class; {n} cases")
+                     f"{'the chart rated on its own or as a member of a generic MapSet; ' if game != 'sm' else ''}rate as python / numpy number, positional / keyword / through the class; "
+                     f"of the file cases 70% write and read the original and the rated chart on ONE path, 2/3 onto a longer / shorter file; every case writes the ORIGINAL before it is rated; "
+                     f"{'20%: the written original is moved in place (250 / -1000 / 125 / 60000 ms, list properties / stack(), with the file offset) before rate(); ' if game != 'bms' else ''}"
+                     f"10% with a rate from {[round(x, 4) for x in WRITE_RATES_WIDE]}; 20%: the rated chart, once written, is rated again (0.5 / 2 / 1.25 / 0.8) and written; 15%: the rated chart written twice; {n} cases")
         rep.extra["cases_skipped_because_the_unrated_chart_does_not_survive_write_read"] = len(skipped)
         rep.extra["skipped_example"] = skipped[:1]
         rep.extra["dimensions_seen"] = seen
